@@ -339,6 +339,18 @@ def persistence(ctx):
                           "of another pulse (%s): the request is served only if both pulses coincide - the periodic operation practically "
                           "never runs" % (sig, windowed), sites[0].loc, {"sites": [str(l) for l in sites]})
             if pulse and sites and not all(windowed):
+                # the pulse is only seen while the FSM waits in its consumer state(s): nothing but the pulse itself may take the FSM away from there,
+                # otherwise a pulse that falls into the other sequence is never seen and a whole batch of refreshes is skipped
+                wait_states = {l.state for l, w_ in zip(sites, windowed) if not w_}
+                edges_, _dl = fsm_graph(r, f)
+                for src_, dst_, l in edges_:
+                    if src_ in wait_states and dst_ not in wait_states and key(sig) not in r.guard_keys(l, False):
+                        ob.refute("pulse-lost:%s:%s" % (sig, src_), "%s is a one-cycle pulse seen only in state %s, but the FSM also leaves that state under %s (to %s): a pulse "
+                                  "arriving while that other sequence runs is lost - the periodic operation it requests is skipped" %
+                                  (sig, src_, sorted(r.guard_keys(l, False)), dst_), l.loc)
+                ob.instance("zqcs=%s: exits of the state(s) %s that wait for pulse %s" % (zq, sorted(wait_states), sig),
+                            [(src_, dst_, sorted(r.guard_keys(l, False))) for src_, dst_, l in edges_ if src_ in wait_states])
+            if pulse and sites and not all(windowed):
                 ctx.assume("%s is a pulse consumed while the refresher FSM waits in %s; a pulse arriving while a sequence is still running is "
                            "lost unless the sequence is shorter than postponing*tREFI (runtime quantity, not decided)" %
                            (sig, sorted({l.state for l, w in zip(sites, windowed) if not w})))
